@@ -847,7 +847,9 @@ class FelicaLiteS(FelicaLite):
                     return False
 
             # if password is empty use factory key of 16 zero bytes
-            key = password[0:16].encode("ascii") if password else b'\0' * 16
+            key = password[0:16] if password else b'\0' * 16
+            if not isinstance(key, (bytes, bytearray)):
+                key = key.encode("ascii")
 
             log.debug("protect with key %s", hexlify(key).decode())
             ckv = self.read_without_mac(0x86)
